@@ -322,6 +322,22 @@ Fixpoint wf_schema (s : schema) {struct s} : Prop :=
   | _ => True
   end.
 
+(* executable version of wf_schema (the harness evaluates it on the schema extracted from the source on every run) *)
+Fixpoint nodupb (l : list string) : bool :=
+  match l with [] => true | x :: r => negb (existsb (String.eqb x) r) && nodupb r end.
+Definition is_classb (s : schema) : bool := match s with SClass _ _ _ => true | _ => false end.
+Fixpoint wf_schemab (s : schema) {struct s} : bool :=
+  match s with
+  | SObjAttr _ _ c => is_classb c && wf_schemab c
+  | SObjList c => wf_schemab c
+  | SClass idx strip attrs =>
+      nodupb (attr_keys strip attrs) && negb (existsb (String.eqb dict_type) (attr_keys strip attrs)) &&
+      (if idx then match assoc index_attr attrs with Some (SPlain RPass, _) => true | _ => false end else true) &&
+      (fix all (al : list (string * (schema * pv))) : bool :=
+         match al with [] => true | (_, (sa, _)) :: al' => wf_schemab sa && all al' end) attrs
+  | _ => true
+  end.
+
 Section Conforms.
 Variable stable : rmode -> pv -> bool.
 
